@@ -35,6 +35,14 @@ SUBKEYED = {'wifi', 'bluetooth'}
 CLASSES = ['rec_unknown', 'rec_wrongkind', 'traj_unknown', 'rig_unknown_member', 'rig_nested_dangling',
            'feat_unlisted', 'feat_missing', 'match_unknown', 'obs_missing_type', 'obs_missing_image',
            'dup_key', 'collision']
+# further classes, combined with the above in dedicated streams (not part of the 2^12 enumeration)
+CAM_NONE = ['cam_clear', 'cam_all_undeclared', 'cam_all_wrongkind']     # no camera record survives
+LINKS = ['feat_symlink', 'feat_dangling_link', 'match_links']                          # folder storage only
+# 'match_links' (matches files reached through / replaced by symbolic links) is implemented below but NOT generated:
+# the unchanged loader lists matches with a walk that does not follow links and never tests the file, so it loads a
+# pair whose .matches file is a link leading nowhere and drops pairs below a linked folder (shown in docs/C04.md,
+# repair in fixes/C04-matches-listing-follows-links.patch).  Once that repair is in /repo, append 'match_links' to LINKS.
+FEATURE_SIDE = ['feat_unlisted', 'feat_missing', 'match_unknown', 'obs_missing_type', 'obs_missing_image']
 VERSIONS_MAIN = ['1.1', '1.0', '1.2']
 THR_NUM, THR_DEN = 9907919180215093, 9007199254740992      # only used to build interesting version strings
 
@@ -44,7 +52,10 @@ RULE = ('case = valid dataset written by kapture_to_dir (random sensors of all 1
         'whose members are all unknown, feature files for unlisted images, listed images without feature files, matches with '
         'unknown images, observations on missing types / images, duplicate keys, rig-sensor id collision) x version line '
         '(current, older, newer, odd strings around the float threshold, absent) x storage (folder, tar with handlers, tar '
-        'without handlers) x optional pairs file + structural deletions (whole files / folders). quick: all single classes and '
+        'without handlers) x optional pairs file + structural deletions (whole files / folders) + 3 ways of leaving no camera '
+        'record (header-only file, all sensors undeclared, all cameras re-declared as lidar) x {tar, folder} + feature data '
+        'reached through symbolic links (linked sub-folders inside / outside the dataset, linked files, links leading nowhere) '
+        '+ image names that are not normalised (folder storage). quick: all single classes and '
         'pairs on a fixed base + random; thorough: all 2^12 class subsets x {folder, tar} on a fixed base (x 3 versions for the '
         '2^8 subsets of 8 classes) + 10x random. Non-trivial = at least one raw entry is dropped by the loader or the load is '
         'refused; distinct = distinct case descriptions.')
@@ -52,8 +63,11 @@ TRUSTED = ['the harness reader `scan` (rows of the text files, folder / tar list
            'CPython float() is correctly rounded (the version gate is modelled on exact rationals through the midpoint '
            'computed in harness/tables/load.py; sampled by version strings on both sides of the midpoint)',
            'file-system / tarfile listing semantics (a data file "exists" iff the harness lists it)']
-ASSUMPTIONS = ['image names and sensor ids are normalised relative paths / plain tokens (no "//", "..", commas, leading "#", '
-               'surrounding blanks); version digits are ASCII',
+ASSUMPTIONS = ['sensor ids and image names are plain tokens / relative paths (no "..", commas, leading "#", surrounding blanks); '
+               'image names that are not normalised ("a//b", "a/./b") are generated for folder storage only; version digits are ASCII',
+               'a data file exists iff os.path.exists(<type folder>/<image><ext>) (links followed) or, with tar handlers, a regular '
+               'member of that name; matches files reached through symbolic links are not generated (see docs/C04.md, '
+               'fixes/C04-matches-listing-follows-links.patch)',
                'a version counts as newer / older for the oracle only when decimal order and (major, minor) order agree; '
                'and the value is not within 1e-12 of 1.1; otherwise ("1.10", "01.1", 1.1 followed by more digits) only the correspondence '
                'with the model is checked (the statement does not define the order of versions)',
@@ -192,7 +206,8 @@ def _base_random(rng):
 
 
 def _empty_inj():
-    return {'rows': {}, 'add_files': [], 'del_files': [], 'add_matches': [], 'del_paths': []}
+    return {'rows': {}, 'add_files': [], 'del_files': [], 'add_matches': [], 'del_paths': [],
+            'clear_rows': [], 'link_files': [], 'link_dirs': [], 'link_matches': []}
 
 
 def _add_row(inj, fkey, fields, pos=-1):
@@ -301,6 +316,41 @@ def apply_class(case, cls, rng):
         if base['rigs'] is not None:
             sid = rng.choice(sensors)[0]
             _add_row(inj, 'rigs', [sid, sensors[0][0], 1, 0, 0, 0, 0, 0, 0], pos())
+    elif cls == 'cam_clear':                      # records_camera.txt keeps its header only
+        inj['clear_rows'].append('records_camera')
+    elif cls == 'cam_all_undeclared':             # every camera record names an undeclared sensor
+        inj['clear_rows'].append('records_camera')
+        for ts, sid, im in base['records'].get('camera', []):
+            _add_row(inj, 'records_camera', [ts, 'ghost_' + sid, im], -1)
+    elif cls == 'cam_all_wrongkind':              # every camera is re-declared as a lidar: all camera records are wrong-kind
+        for sid, kd in sensors:
+            if kd == 'camera':
+                _add_row(inj, 'sensors', [sid, 'redeclared', 'lidar'], -1)
+    elif cls == 'feat_symlink':                   # data reached through links: nothing may be dropped
+        n = 0
+        for fk, types in base['feat'].items():
+            for t, ims in types.items():
+                subs = sorted({i.split('/')[0] for i in ims if '/' in i})
+                if subs:
+                    inj['link_dirs'].append([fk, t, rng.choice(subs), 'inside' if n % 2 == 0 else 'outside'])
+                    n += 1
+                if ims:
+                    inj['link_files'].append([fk, t, rng.choice(ims), 'live'])
+    elif cls == 'match_links':
+        for t, ps in (base['matches'] or {}).items():
+            if len(images) >= 2:
+                inj['link_matches'].append([t, images[0], images[-1], 'dangling'])
+            subs = sorted({a.split('/')[0] for a, _ in ps if '/' in a})
+            if subs:
+                inj['link_dirs'].append(['matches', t, subs[0], 'inside'])
+    elif cls == 'feat_dangling_link':             # a link that leads nowhere is not an existing data file
+        for fk, types in base['feat'].items():
+            for t, ims in types.items():
+                if ims:
+                    inj['link_files'].append([fk, t, rng.choice(ims), 'dangling'])
+                lacking = [i for i in images if i not in ims]
+                if lacking:
+                    inj['link_files'].append([fk, t, lacking[0], 'dangling'])
     else:
         raise ValueError(cls)
 
@@ -409,6 +459,36 @@ def gen_cases(rng, tier):
         _add_row(c['inj'], 'records_gnss', _rec_fields('gnss', 5, 'cam0', ''))
         _add_row(c['inj'], 'records_gnss', _rec_fields('gnss', 6, 'ghost_gnss', ''))
         cases.append(c)
+    # 5b. no camera record survives (x storage), data reached through symbolic links (folder storage),
+    #     image names that are not normalised (folder storage)
+    for c0 in CAM_NONE:
+        for mode in ('tar', 'dir'):
+            cases.append(_mk(fb(), [c0], rng, '1.1', mode))
+        cases.append(_mk(fb(), [c0, 'feat_unlisted', 'obs_missing_image'], rng, '1.1', 'tar'))
+        cases.append(_mk(fb(), [c0, 'feat_missing', 'match_unknown'], rng, '1.1', rng.choice(['tar', 'dir'])))
+    for sub in (['feat_symlink'], ['feat_dangling_link'], LINKS, LINKS + ['feat_missing'], LINKS + ['feat_unlisted'],
+                ['feat_symlink', 'obs_missing_image'], ['feat_dangling_link', 'obs_missing_image', 'rec_wrongkind'],
+                LINKS + ['cam_all_undeclared']):
+        cases.append(_mk(fb(), sub, rng, '1.1', 'dir'))
+    ub = fb()
+    odd = 'cam0//2.jpg'
+    ub['records']['camera'].append([2, 'cam0', odd])
+    ub['records']['camera'].append([3, 'cam1', 'cam1/./3.jpg'])
+    for fk in ub['feat']:
+        for t in ub['feat'][fk]:
+            ub['feat'][fk][t].append(odd)
+    ub['feat']['keypoints']['sift'].append('cam1/./3.jpg')
+    ub['obs'].append([1, 'sift', odd, 4])
+    for sub in ([], ['feat_missing'], ['feat_dangling_link']):
+        cases.append(_mk(copy.deepcopy(ub), sub, rng, '1.1', 'dir'))
+    if tier != 'quick':
+        for bits in range(1 << len(FEATURE_SIDE)):
+            sub = [c for i, c in enumerate(FEATURE_SIDE) if bits >> i & 1]
+            for c0 in CAM_NONE:
+                for mode in ('tar', 'dir'):
+                    cases.append(_mk(fb(), [c0] + sub, rng, '1.1', mode))
+            for ls in (['feat_symlink'], ['feat_dangling_link'], LINKS):
+                cases.append(_mk(fb(), ls + sub, rng, '1.1', 'dir'))
     # 6. random datasets, random class subsets
     n_rand = 140 if tier == 'quick' else 1400
     for i in range(n_rand):
@@ -419,6 +499,10 @@ def gen_cases(rng, tier):
             sub.append('collision')
         ver = rng.choice(['1.1'] * 6 + ['1.0', '1.2', '0.9', '1.10', '2.0'])
         mode = rng.choice(['dir', 'dir', 'tar', 'tar', 'tar-nohandler'])
+        if rng.random() < 0.1:
+            sub.append(rng.choice(CAM_NONE))
+        if mode == 'dir' and rng.random() < 0.2:
+            sub.extend(rng.sample(LINKS, rng.randint(1, 2)))
         pairs = _pairs_for(base, rng) if rng.random() < 0.15 else None
         dp = []
         if rng.random() < 0.1:
@@ -561,6 +645,12 @@ def build_dir(case, root):
         for p in s:
             kf.image_matches_to_file(kf.get_matches_fullpath(p, t, root), np.zeros((1, 3), np.float64))
     # --- edits
+    for fkey in inj.get('clear_rows', []):
+        fp = os.path.join(root, TXT[fkey])
+        if os.path.exists(fp):
+            head = [ln for ln in open(fp, encoding='utf-8').read().split('\n') if ln.startswith('#')]
+            with open(fp, 'w', encoding='utf-8') as f:
+                f.write('\n'.join(head) + '\n')
     for fkey, items in inj['rows'].items():
         _insert_rows(os.path.join(root, TXT[fkey]), items)
     for fk, t, im in inj['add_files']:
@@ -577,6 +667,39 @@ def build_dir(case, root):
             shutil.rmtree(p)
         elif os.path.exists(p):
             os.remove(p)
+    # --- symbolic links (folder storage only): files first, then whole sub-folders
+    if case['mode'] == 'dir':
+        store = os.path.join(root, 'linked_store')
+        outside = os.path.join(os.path.dirname(root), 'outside')
+        for n, (fk, t, im, how) in enumerate(inj.get('link_files', [])):
+            p = _feature_file(root, fk, t, im)
+            if not os.path.isdir(os.path.join(root, 'reconstruction', fk, t)):
+                continue
+            if how == 'live':
+                if os.path.isfile(p) and not os.path.islink(p):
+                    target = os.path.join(store, 'files', f'{n}.bin')
+                    os.makedirs(os.path.dirname(target), exist_ok=True)
+                    shutil.move(p, target)
+                    os.symlink(target, p)
+            else:
+                if os.path.lexists(p):
+                    os.remove(p)
+                os.makedirs(os.path.dirname(p), exist_ok=True)
+                os.symlink(os.path.join(store, f'nonexistent_{n}'), p)
+        for n, (t, a, b, how) in enumerate(inj.get('link_matches', [])):
+            p = kf.get_matches_fullpath((a, b), t, root)
+            if os.path.isdir(os.path.join(root, 'reconstruction', 'matches', t)):
+                if os.path.lexists(p):
+                    os.remove(p)
+                os.makedirs(os.path.dirname(p), exist_ok=True)
+                os.symlink(os.path.join(store, f'nonexistent_m{n}'), p)
+        for n, (fk, t, sub, where) in enumerate(inj.get('link_dirs', [])):
+            d = os.path.join(root, 'reconstruction', fk, t, sub)
+            if os.path.isdir(d) and not os.path.islink(d):
+                target = os.path.join(store if where == 'inside' else outside, 'dirs', f'{n}_{fk}_{t}')
+                os.makedirs(os.path.dirname(target), exist_ok=True)
+                shutil.move(d, target)
+                os.symlink(target, d)
     # --- version line of sensors.txt
     sp = os.path.join(root, TXT['sensors'])
     if os.path.exists(sp):
@@ -631,19 +754,26 @@ def _rows(path):
     return out
 
 
-def _listing(td, fk, use_tar):
-    """Names (without extension) of the data files of one type folder, as the loader can see them."""
+def _listing(td, fk, use_tar, candidates=None):
+    """Names (without extension) of the data files of one type folder, as the loader can see them.
+    Tar with a handler: the regular members.  Folder, per-image kinds (candidates given): the image names i for which
+    os.path.exists(<folder>/<i><ext>) holds, i.e. symbolic links are followed and a link that leads nowhere is not
+    a data file; candidates = every name found by a link-following walk + every image name of records_camera.txt.
+    Matches: the same, candidates = the names found by the link-following walk."""
     ext = FEXT[fk]
     names = []
     tarp = os.path.join(td, fk + '.tar')
     if use_tar and os.path.isfile(tarp):
         with tarfile.open(tarp) as tf:
             names = sorted({m.name for m in tf.getmembers() if m.isfile()})
-    else:
-        for dp, _, fs in os.walk(td):
-            for fn in fs:
-                names.append(os.path.relpath(os.path.join(dp, fn), td).replace(os.sep, '/'))
-    return sorted(n[:-len(ext)] for n in names if n.endswith(ext))
+        return sorted(n[:-len(ext)] for n in names if n.endswith(ext))
+    cand = set(candidates or [])
+    for dp, _, fs in os.walk(td, followlinks=True):
+        for fn in fs:
+            n = os.path.relpath(os.path.join(dp, fn), td).replace(os.sep, '/')
+            if n.endswith(ext):
+                cand.add(n[:-len(ext)])
+    return sorted(i for i in cand if i and os.path.exists(os.path.join(td, i + ext)))
 
 
 def scan(root, case):
@@ -673,7 +803,8 @@ def scan(root, case):
             raw['feat'][fk] = {}
             for t in sorted(os.listdir(d)):
                 if os.path.isfile(os.path.join(d, t, fk + '.txt')):
-                    raw['feat'][fk][t] = _listing(os.path.join(d, t), fk, use_tar)
+                    raw['feat'][fk][t] = _listing(os.path.join(d, t), fk, use_tar,
+                                                  [r[2] for r in raw['records'].get('camera', [])])
     d = os.path.join(root, 'reconstruction', 'matches')
     if os.path.exists(d):
         raw['matches'] = {}
@@ -1026,8 +1157,8 @@ def shrink(case):
             if not c['inj']['rows'][fkey]:
                 del c['inj']['rows'][fkey]
             yield c
-    for key in ('add_files', 'del_files', 'add_matches', 'del_paths'):
-        for i in range(len(inj[key])):
+    for key in ('add_files', 'del_files', 'add_matches', 'del_paths', 'link_files', 'link_dirs', 'link_matches'):
+        for i in range(len(inj.get(key, []))):
             c = copy.deepcopy(case)
             del c['inj'][key][i]
             yield c
